@@ -12,7 +12,7 @@
 
    Representation.
    * A value is a kind tag plus payload.  The scalar payloads are shared with
-     the specification ([scalar]); reals are exact quarters (q/4), which is
+     the specification ([scalar]); reals are exact dyadics q/256 (8 fraction bits), which is
      the class the generator stays in (formatting / parsing of other reals is
      C09/C10's subject).
    * Objects are HArray tables, modelled at the level that C13 proves for
@@ -45,7 +45,7 @@ Inductive scalar :=
 | SNull | STrue | SFalse
 | SUInt (n : N)          (* unsigned long long *)
 | SInt (z : Z)           (* long long *)
-| SReal (q : Z)          (* double, exactly q/4 *)
+| SReal (q : Z)          (* double, exactly q/256 *)
 | SStr (s : str).
 
 Definition two64 : Z := 18446744073709551616%Z.
@@ -65,15 +65,29 @@ Definition dec_Z (z : Z) : list N :=
   | _ => dec_N (Z.to_N z)
   end.
 
+(* reals are q / real_den: every dyadic with at most 8 fraction bits (k/4,
+   k/8, k/16, ... k/256); their decimal text is exact and has at most 8
+   fraction digits (1/256 = 0.00390625) *)
+Definition real_den : Z := 256%Z.
+Definition real_den_N : N := 256.
+
+(* the (at most 8) fraction digits of r/256: r * 390625 written with 8 digits,
+   trailing zeros dropped *)
+Definition pad_left (n : nat) (l : list N) : list N := repeat 48 (n - length l) ++ l.
+Fixpoint drop_trailing_zeros_rev (l : list N) : list N :=
+  match l with 48 :: r => drop_trailing_zeros_rev r | _ => l end.
+Definition frac_digits (r : N) : list N :=
+  rev (drop_trailing_zeros_rev (rev (pad_left 8 (dec_N (r * 390625))))).
+
 (* Digit::NumberToString(double) with the default format and precision 15 on
-   an exact quarter of moderate size: integer part, then .25 / .5 / .75 *)
+   q/256 of moderate size (integer part below 10^7): sign, integer part, then
+   "." and the exact fraction digits when there is a fraction *)
 Definition real_text (q : Z) : list N :=
   let a := Z.abs q in
-  let ip := Z.to_N (Z.quot a 4) in
-  let fr := Z.to_N (Z.rem a 4) in
+  let ip := Z.to_N (Z.quot a real_den) in
+  let fr := Z.to_N (Z.rem a real_den) in
   (if Z.ltb q 0 then [45] else []) ++ dec_N ip ++
-  (if N.eqb fr 1 then [46; 50; 53] else if N.eqb fr 2 then [46; 53]
-   else if N.eqb fr 3 then [46; 55; 53] else []).
+  (if N.eqb fr 0 then [] else 46 :: frac_digits fr).
 
 (* result of SetNumber *)
 Inductive num := NNaN | NNat (n : N) | NInt (z : Z) | NReal (q : Z).
@@ -98,7 +112,7 @@ Definition parse_frac (s : str) : option N :=
   | [46; 55; 53] => Some 3
   | _ => None
   end.
-Definition parse_unsigned (s : str) : option (N * N * bool) :=   (* int part, quarters, has fraction *)
+Definition parse_unsigned (s : str) : option (N * N * bool) :=   (* int part, fraction in quarters, has fraction *)
   let nd := take_digits s in
   match s with
   | [] => None
@@ -119,13 +133,13 @@ Definition parse_num (s : str) : num :=
   match s with
   | 45 :: r =>
     match parse_unsigned r with
-    | Some (v, f, true) => NReal (- (Z.of_N (4 * v + f)))
+    | Some (v, f, true) => NReal (- (Z.of_N (real_den_N * v + 64 * f)))
     | Some (v, _, false) => if N.eqb v 0 then NNaN else NInt (- Z.of_N v)
     | None => NNaN
     end
   | _ =>
     match parse_unsigned s with
-    | Some (v, f, true) => NReal (Z.of_N (4 * v + f))
+    | Some (v, f, true) => NReal (Z.of_N (real_den_N * v + 64 * f))
     | Some (v, _, false) => NNat v
     | None => NNaN
     end
@@ -149,21 +163,21 @@ Definition get_uint64 (x : num) : N :=
   match x with
   | NNat n => n
   | NInt z => wrap_u64 z
-  | NReal q => wrap_u64 (Z.quot q 4)
+  | NReal q => wrap_u64 (Z.quot q real_den)
   | NNaN => 0
   end.
 Definition get_int64 (x : num) : Z :=
   match x with
   | NNat n => wrap_i64 (Z.of_N n)
   | NInt z => z
-  | NReal q => Z.quot q 4
+  | NReal q => Z.quot q real_den
   | NNaN => 0%Z
   end.
-(* GetDouble in quarters (exact below 10^15, which is all the dump prints) *)
+(* GetDouble in 256ths (exact below 10^15, which is all the dump prints) *)
 Definition get_double_q (x : num) : Z :=
   match x with
-  | NNat n => (4 * Z.of_N n)%Z
-  | NInt z => (4 * z)%Z
+  | NNat n => (real_den * Z.of_N n)%Z
+  | NInt z => (real_den * z)%Z
   | NReal q => q
   | NNaN => 0%Z
   end.
@@ -230,7 +244,7 @@ Definition scalar_dump (s : scalar) : list N :=
   | SStr t => 115 :: units_text t
   end.
 
-Definition big_q : Z := 4000000000000000%Z.
+Definition big_q : Z := 256000000000000000%Z.
 Definition dbl_dump (q : Z) : list N :=
   if Z.ltb (Z.abs q) big_q then dec_Z q else [66].
 Definition num_dump (x : num) : list N :=
